@@ -952,7 +952,14 @@ def probes(recipe):
     p["rank_without_comm"] = any(
         all(c["src"] != r and c["dst"] != r for c in lc)
         for r in range(recipe["nranks"])) and recipe["nranks"] > 1
-    p["zero_size_message"] = False
+    def _size(v):
+        cur = vals[v]
+        while cur["op"] == "recv":
+            cur = vals[comms[cur["p"]["comm"]]["src_val"]]
+        if cur["op"] in ("input", "dw"):
+            return int(np.prod(cur["p"]["shape"])) if cur["p"]["shape"] else 1
+        return None
+    p["zero_size_message"] = any(_size(c["src_val"]) == 0 for c in lc)
     p["mpms"] = bool(recipe.get("mpms"))
     p["staple_on_intermediate"] = any(c["staple"][0] == "val" for c in lc)
     p["shared_sym_tag"] = len({tuple(c["tag"]) for c in lc}) < len(lc)
